@@ -50,7 +50,7 @@ TIERS = {
         "scan_nd_inner": {1: ((V, 3),), 2: (((-1, 2), 3), ((0, 0.5), 3))},
         "scan_nd_outer": (((-1, 2), 2), ((0.5, 2), 2)),
         "log": P16,
-        "x2x": (P16, ((0.0, 0.0), (1.5, -2.0))),
+        "x2x": (P16, ((0.0, 0.0), (1.5, -2.0), (2.0, 1.0), (-1.0, -0.5), (0.5, 0.25))),
     },
     "thorough": {
         "scan": {1: (P16,), 2: (P16, P16), 3: (P16, P4, P4)},
@@ -62,7 +62,7 @@ TIERS = {
         "scan_nd_inner": {1: ((V, 3),), 2: ((V, 3), ((0, 0.5), 3))},
         "scan_nd_outer": (((-1, 0.5, 2), 3), ((0.5, 2), 3)),
         "log": P16,
-        "x2x": (P16, ((0.0, 0.0), (1.5, -2.0), (-2.0, 1.5))),
+        "x2x": (P16, ((0.0, 0.0), (1.5, -2.0), (-2.0, 1.5), (2.0, 1.0), (-1.0, -0.5), (0.5, 0.25), (0.0, 1.0), (2.0, 0.0))),
     },
 }
 
